@@ -34,6 +34,8 @@ Every documented rule is a separate, named piece of code (the names are used in 
     R-filter-text       .EQ. .NE. (== = /=) compare text
     R-filter-numeric    .EQN. .NEN. .LT. .LE. .GT. .GE. (< <= > >=) compare numbers; the item
                         is parsed first (error when it is not a number)
+    R-missing           (pharmpy configuration, not NM-TRAN) the item -99 is read as NA; in numeric
+                        comparisons it is judged only where "number -99" and "NA" give the same answer
     R-order             comment removal -> splitting -> IGNORE/ACCEPT -> dropping -> item errors
 """
 
@@ -42,6 +44,7 @@ from __future__ import annotations
 import re
 
 NULL = None  # marker of a NULL item after classification
+MISSING_TOKEN = '-99'  # default of pharmpy.conf.missing_data_token (documented in pharmpy/__init__.py)
 
 
 class DataError(Exception):
@@ -303,6 +306,17 @@ def filter_matches(flt, row, names, alias):
     if op in NUM_OPS:  # R-filter-numeric
         if not _PLAIN_NUMBER.match(value):
             raise Unspecified('numeric comparison needs a number')
+        if item == MISSING_TOKEN:
+            # R-missing: pharmpy's documented configuration option missing_data_token ('-99':
+            # "data token to be converted to or from NA when reading or writing data").  The
+            # NM-TRAN text knows no such token (there -99 is a number).  Only comparisons on
+            # which both readings agree are judged: the number -99 and NA (every comparison
+            # with NA is false, "not equal" is true).
+            as_number = _cmp(NUM_OPS[op], float(MISSING_TOKEN), float(value))
+            as_na = NUM_OPS[op] == 'ne'
+            if as_number != as_na:
+                raise Unspecified('comparison of the missing data token on which number and NA reading differ')
+            return as_na
         try:
             x = parse_number(item)
         except DataError as e:
@@ -343,6 +357,8 @@ def read(text, entries, ignore_char=None, null=None, ignore=(), accept=()):
                 rr.append(r[j] if j < len(r) else None)  # R-dropped-any
             elif is_null(item):
                 rr.append(nullv)  # R-null, R-null-value
+            elif item == MISSING_TOKEN:
+                rr.append(float('nan'))  # R-missing: converted to NA when reading
             else:
                 rr.append(parse_number(item))
         out.append(rr)
